@@ -10,7 +10,7 @@ GH = {"g_rng_set": (TSeq(BOOL, mutable=False), None), "g_rng_key": (TSeq(INT, mu
 BASE_GETITEM = dict(
     target=f"{W}/base/transform_wrapper_base.py::TransformWrapperBase._getitem",
     self={"dataset": KDDATASET, "transform": TRANSFORM, "seed": TOpt(INT)}, params={"item": VAL, "idx": INT, "ctx": TOpt(TDict())},
-    ghost=GH, requires=["not g_rng_set[0]"],
+    ghost=GH, requires=["not g_rng_set[0]"], inline=True,      # call sites execute the body (the ghost call maps are its effect)
     ensures=[
         # the stream key is seed + idx itself (different indices, different streams) and reaches every KD transform
         "implies(self.seed is not None and IsKD(self.transform), g_rng_set[0] and g_rng_key[0] == val(self.seed) + idx)",
@@ -51,4 +51,21 @@ SEMSEG = dict(
              "g_napplied == len(self.transforms)"],
 )
 
-CONTRACTS = [BASE_GETITEM, MULTIVIEW, SEMSEG]
+# every public accessor of the transform wrappers goes through _getitem exactly once with its own index (so the fused
+# "x class" path of XTransformWrapper is seeded like the plain one)
+SEEDED_ENS = ["implies(self.seed is not None and IsKD(self.transform), g_rng_set[0] and g_rng_key[0] == val(self.seed) + idx)", "g_napplied == 1"]
+
+
+def accessor(file, cls, fn):
+    return dict(target=f"{W}/{file}::{cls}.{fn}", self={"dataset": KDDATASET, "transform": TRANSFORM, "seed": TOpt(INT)},
+                self_class=f"{W}/{file}::{cls}", params={"idx": INT, "ctx": TOpt(TDict())}, ghost=GH,
+                requires=["not g_rng_set[0]", "0 <= idx and idx < len(self.dataset)"], ensures=SEEDED_ENS)
+
+
+ACCESSORS = [accessor("x_transform_wrapper.py", "XTransformWrapper", "getitem_x"),
+             accessor("x_transform_wrapper.py", "XTransformWrapper", "getitem_xclass"),
+             accessor("source_transform_wrapper.py", "SourceTransformWrapper", "getitem_source"),
+             accessor("target_transform_wrapper.py", "TargetTransformWrapper", "getitem_target"),
+             accessor("y_transform_wrapper.py", "YTransformWrapper", "getitem_y")]
+
+CONTRACTS = [BASE_GETITEM, MULTIVIEW, SEMSEG] + ACCESSORS
